@@ -88,6 +88,9 @@ pub fn reset() {
         PATHLOG_LEN = 0;
         DENTS_SRC = core::ptr::null();
         DENTS_LEN = 0;
+        DENTS2_SRC = core::ptr::null();
+        DENTS2_LEN = 0;
+        DENTS_CALLS = 0;
     }
 }
 
@@ -433,6 +436,21 @@ unsafe fn log_path(ptr: usize, ret: usize) {
 pub static mut DENTS_SRC: *const u8 = core::ptr::null();
 pub static mut DENTS_LEN: usize = 0;
 pub const MODE_DENTS: u32 = 128;
+/// copy_file_range returns any count <= its length argument (short copies, 0 = end) or an error
+pub const MODE_SHORT_COUNTS: u32 = 512;
+
+/// second batch for GETDENTS64 (delivered by the second call), so that a stream spanning two
+/// kernel batches can be scripted
+pub static mut DENTS2_SRC: *const u8 = core::ptr::null();
+pub static mut DENTS2_LEN: usize = 0;
+pub static mut DENTS_CALLS: usize = 0;
+
+pub fn set_dents2(src: *const u8, len: usize) {
+    unsafe {
+        DENTS2_SRC = src;
+        DENTS2_LEN = len;
+    }
+}
 
 pub fn set_dents(src: *const u8, len: usize) {
     unsafe {
@@ -593,15 +611,26 @@ pub unsafe fn dispatch(n: usize, args: [usize; 7], nargs: u8) -> usize {
         ret = 0;
         #[cfg(not(kani))]
         std::process::exit(99);
+    } else if mode & MODE_SHORT_COUNTS != 0 && n == nr::COPY_FILE_RANGE {
+        let fail = choose(3) != 0;
+        if fail {
+            ret = choose_err();
+        } else {
+            let k = choose(7);
+            #[cfg(kani)]
+            kani::assume(k <= args[4]);
+            ret = k;
+        }
     } else if mode & MODE_DENTS != 0 && n == nr::GETDENTS64 {
         let out = args[1] as *mut u8;
-        let k = if DENTS_LEN <= args[2] { DENTS_LEN } else { 0 };
+        let (src, len) = if DENTS_CALLS == 0 { (DENTS_SRC, DENTS_LEN) } else if DENTS_CALLS == 1 { (DENTS2_SRC, DENTS2_LEN) } else { (core::ptr::null(), 0) };
+        DENTS_CALLS += 1;
+        let k = if len <= args[2] { len } else { 0 };
         let mut i = 0;
         while i < k {
-            *out.add(i) = *DENTS_SRC.add(i);
+            *out.add(i) = *src.add(i);
             i += 1;
         }
-        DENTS_LEN = 0;
         ret = k;
     } else if mode & MODE_PATHLOG != 0 && (n == nr::MKDIR || n == nr::MKDIRAT) {
         let r = choose_zero_or_err();
